@@ -30,15 +30,16 @@ def run(ctx):
     P = ctx.prog
     ctx.not_decided = 'hunk placement semantics, CRLF/LF and trailing-newline preservation, exactness of the success result (value level).'
     ctx.rule('C12.1', 'undo before mutate: in the operation closure of Workspace::apply_patch every fs mutation (write / remove_file / rename, both ends) of a path is reachable only through the Ok edge of a record_undo call on that same path.')
-    ctx.rule('C12.2', 'revert on error: after the operation closure ran, every path to a return passes revert_paths or the Ok edge of the result test; revert_paths walks the undo list in reverse.')
+    ctx.rule('C12.2', 'revert on error: after the operation closure ran, every path to a return passes revert_paths (with the undo entries) or the Ok edge of the result test; revert_paths writes back previous bytes and removes files that did not exist. (The order of the walk is not claimed: with first-seen entries, C12.4, every order restores the same state.)')
     ctx.rule('C12.3', 'parse first: Patch::parse(..)? dominates the operation closure; no fs mutation happens in apply_patch outside the closure and revert_paths.')
 
     f = P.fn(APPLY)
     fam = P.closures_of(APPLY)
     ctx.touch(f)
-    undo_cl = [g for g in fam if g.calls(r'alloc::vec::Vec::push$', full=r'Option<alloc::vec::Vec<u8>>')]
+    STORE_RX = r'alloc::vec::Vec::push$|btree::map::BTreeMap::insert$|hash::map::HashMap::insert$|::or_insert(_with)?$|btree::map::BTreeMap::entry$|hash::map::HashMap::entry$'
+    undo_cl = [g for g in fam if g.calls(STORE_RX, full=r'Option<alloc::vec::Vec<u8>>') and g.calls(r'^std::fs::read$')]
     if len(undo_cl) != 1:
-        raise CheckError('C12.1: expected one record_undo closure (pushes (PathBuf, Option<Vec<u8>>)), found %d' % len(undo_cl))
+        raise CheckError('C12.1: expected one record_undo closure (reads the previous bytes and stores Option<Vec<u8>> per path), found %d' % len(undo_cl))
     undo_cl = undo_cl[0]
     op_cl = [g for g in fam if g.calls(MUT)]
     if len(op_cl) != 1:
@@ -48,7 +49,26 @@ def run(ctx):
     ctx.touch(undo_cl)
     # record_undo reads the previous content before pushing
     rd = undo_cl.calls(r'^std::fs::read$')
-    pu = undo_cl.calls(r'alloc::vec::Vec::push$')
+    pu = undo_cl.calls(STORE_RX, full=r'Option<alloc::vec::Vec<u8>>')
+    # C12.4 first-seen: the stored previous state of a path must be the one from BEFORE the patch:
+    # the store is reachable only the first time a path is recorded
+    ctx.rule('C12.4', 'first-seen undo: record_undo stores the previous state of a path only the first time it sees that path (set insert == true / contains == false / entry().or_insert); a later record of the same path must not overwrite it, otherwise a patch that touches one path twice rolls back to an intermediate state.')
+    for st_ in pu:
+        fresh = False
+        if re.search(r'::or_insert(_with)?$', st_.callee):
+            fresh = True
+        for t in undo_cl.calls(r'btree::set::BTreeSet::insert$|hash::set::HashSet::insert$|::contains(_key)?$'):
+            sw = undo_cl.switch_on_call(t)
+            if sw is None:
+                continue
+            bb, ts, els, neg = sw
+            is_insert = t.name == 'insert'
+            # insert -> true means fresh; contains -> false means fresh
+            fresh_edge = (ts.get('0') if neg else els) if is_insert else (els if neg else ts.get('0'))
+            if fresh_edge is not None and undo_cl.edge_dom(bb, fresh_edge, st_.bb):
+                fresh = True
+        ctx.ob('C12.4', undo_cl, 'undo-first-seen', fresh, 'the undo entry is stored %s' % ('only the first time a path is seen' if fresh else
+               'EVERY time a path is recorded (%s overwrites / duplicates): the rollback of a patch that touches a path twice restores an intermediate state' % st_.name), line=st_.line)
     ctx.ob('C12.1', undo_cl, 'undo-captures-previous', bool(rd) and all(undo_cl.can_reach(r.bb, p.bb) for r in rd for p in pu) and not undo_cl.calls(MUT),
            'record_undo reads the previous bytes (or notes absence) before pushing and mutates nothing', line=undo_cl.line)
     records = [s for s in op_cl.sites() if s.callee == undo_cl.path]
@@ -105,10 +125,9 @@ def run(ctx):
     ctx.ob('C12.2', f, 'revert-on-every-error-path', not esc, 'after the operations ran, a return is reachable only through revert_paths or the Ok edge', line=rev[0].line)
     for x in rev:
         u = f.root_local(x.args[1])
-        ctx.ob('C12.2', f, 'revert-gets-undo-list', u is not None and 'core::option::Option<alloc::vec::Vec<u8>>' in f.lty(u), 'revert_paths receives the undo list', line=x.line)
+        ctx.ob('C12.2', f, 'revert-gets-undo-list', u is not None and 'core::option::Option<alloc::vec::Vec<u8>>' in f.lty(u), 'revert_paths receives the undo entries', line=x.line)
     rp = P.fn('rip_workspace::Workspace::revert_paths')
     ctx.touch(rp)
-    ctx.ob('C12.2', rp, 'reverse-order', bool(rp.calls(r'Iterator::rev$|::rev$')), 'revert_paths iterates the undo list with .rev()', line=rp.line)
     # revert restores bytes or removes created files
     ctx.ob('C12.2', rp, 'revert-restores', bool(rp.calls(r'^std::fs::write$')) and bool(rp.calls(r'^std::fs::remove_file$')), 'revert_paths writes back previous bytes and removes files that did not exist', line=rp.line)
 
